@@ -1148,6 +1148,87 @@ fn criteria_spaces(v: &mut Vec<Space>, side: Side, tier: Tier, ce: Arc<CritEnv>)
             eval_criteria(side, &[(c[4] as usize, Some(ar[c[3] as usize]))], crit, &ce, acc, case);
         }));
     }
+    // (d) setter histories with repetition: every sequence of up to N calls over {template A, template B, exact v1/v2,
+    // min v1/v2, max v1/v2} on ONE criteria object (the last call for a field wins); the selection over six outputs
+    // {script A, script B} x {999, 1000, 1001} must be the one the final field values describe
+    if side == Side::Outputs {
+        let maxk: usize = if thorough { 5 } else { 4 };
+        let seqs = Seqs::new(8, maxk);
+        let nseq = seqs.total();
+        v.push(Space::new("output-setter-histories", nseq * 2, move |case, acc| {
+            let c = coords(case.idx, &[nseq, 2]);
+            let calls = seqs.get(c[0]);
+            let on_clone = c[1] == 1;
+            let ta = ScriptTemplate::from_asm_string(CRIT_TEMPLATE).expect("template A");
+            let tb = ScriptTemplate::from_asm_string("OP_1 OP_DATA=2 OP_DROP").expect("template B");
+            let sa = Script::from_bytes(&[&[0x76u8, 0xa9, 0x14][..], &pattern(2, 20), &[0x88, 0xac]].concat()).expect("script A");
+            let sb = Script::from_bytes(&[0x51, 0x02, 0xaa, 0xbb, 0x75]).expect("script B");
+            let vals = [999u64, 1000, 1001];
+            let mut tx = Transaction::new(1, 0);
+            for sc in [&sa, &sb] {
+                for v in vals {
+                    tx.add_output(&TxOut::new(v, sc));
+                }
+            }
+            // model: the last value set per field
+            let (mut mt, mut me, mut mmin, mut mmax): (Option<u8>, Option<u64>, Option<u64>, Option<u64>) = (None, None, None, None);
+            let mut crit = MatchCriteria::new();
+            let names = ["template A", "template B", "exact 999", "exact 1000", "min 1000", "min 1001", "max 1000", "max 999"];
+            acc.evaluations += 1;
+            acc.transitions += calls.len() as u64 + 1;
+            acc.traces += 1;
+            acc.nontrivial_structural += 1;
+            let built = guard(|| {
+                for call in &calls {
+                    // `on_clone`: continue on the value the setter returns instead of the receiver
+                    let r = match call {
+                        0 => crit.set_script_template(&ta),
+                        1 => crit.set_script_template(&tb),
+                        2 => crit.set_value(999),
+                        3 => crit.set_value(1000),
+                        4 => crit.set_min(1000),
+                        5 => crit.set_min(1001),
+                        6 => crit.set_max(1000),
+                        _ => crit.set_max(999),
+                    };
+                    if on_clone {
+                        crit = r;
+                    }
+                }
+                tx.match_outputs(&crit)
+            });
+            for call in &calls {
+                match call {
+                    0 => mt = Some(0),
+                    1 => mt = Some(1),
+                    2 => me = Some(999),
+                    3 => me = Some(1000),
+                    4 => mmin = Some(1000),
+                    5 => mmin = Some(1001),
+                    6 => mmax = Some(1000),
+                    _ => mmax = Some(999),
+                }
+            }
+            let mut want = vec![];
+            for (i, (si, v)) in [(0u8, 999u64), (0, 1000), (0, 1001), (1, 999), (1, 1000), (1, 1001)].iter().enumerate() {
+                if mt.map_or(true, |t| t == *si) && me.map_or(true, |e| *v == e) && mmin.map_or(true, |m| *v >= m) && mmax.map_or(true, |m| *v <= m) {
+                    want.push(i);
+                }
+            }
+            let hist: Vec<&str> = calls.iter().map(|k| names[*k as usize]).collect();
+            let input = json!({"setter_calls": hist, "continue_on_returned_value": on_clone});
+            match built {
+                Ok(got) => {
+                    acc.outcome(&[b'h', got.len() as u8, want.len() as u8]);
+                    if got != want {
+                        let last = hist.last().copied().unwrap_or("").split(' ').next().unwrap_or("");
+                        acc.violate(format!("C19/match_outputs/kind=wrong-indices/after-setter-history/last={}", last), case.idx, case.json(input), format!("library {:?}, the final field values select {:?}", got, want));
+                    }
+                }
+                Err(p) => acc.violate(format!("C19/match_outputs/kind=panic@{}", panic_site(&p)), case.idx, case.json(input), p),
+            }
+        }));
+    }
 }
 
 // ---------------------------------------------------------------------------
